@@ -87,6 +87,78 @@ func VerifC09_CloseReturns() {
 	}
 }
 
+// VerifC09_TransportReleasedAfterClose: whatever became of the channel's graphsync requests
+// before the ending - never started, one live request, a request superseded by a restart plus the
+// current one, closed locally (the transport forgets its current request at that point), or
+// cancelled by the requester - the transport's cleanup releases everything it holds for the
+// channel: no graphsync request maps to the channel any more, the channel is no longer tracked,
+// its store is unregistered exactly once, and a late callback for any of its requests produces
+// no event.
+func VerifC09_TransportReleasedAfterClose() {
+	f := verifNewTransport()
+	p := peer.ID(zz.String("p"))
+	tid := datatransfer.TransferID(zz.Uint64("tid"))
+	chid := datatransfer.ChannelID{Initiator: p, Responder: f.self, ID: tid}
+	r0, r1 := verifRid("r0"), verifRid("r1")
+	zz.Assume(r0 != r1)
+	req := verifArbitraryRequest("req")
+	req.TransferId = uint64(tid)
+	ctx := context.Background()
+	withStore := zz.Bool("withStore")
+	if withStore {
+		zz.Assert(f.t.UseStore(chid, ipld.LinkSystem{}) == nil, "store registered")
+	}
+	requests := zz.Choice("requests", 3) // 0: never started, 1: one request, 2: restarted (two requests)
+	if requests == 0 && !withStore {
+		f.t.trackDTChannel(chid)
+	}
+	if requests >= 1 {
+		f.t.gsReqRecdHook(p, verifReqWith(r0, req), &verifActions{})
+	}
+	if requests == 2 {
+		f.t.gsReqRecdHook(p, verifReqWith(r1, req), &verifActions{})
+		zz.Reach("restarted channel")
+	}
+	switch zz.Choice("ending", 3) {
+	case 1:
+		zz.Assert(f.t.CloseChannel(ctx, chid) == nil, "closed locally")
+		zz.Settle()
+		zz.Reach("closed locally first")
+	case 2:
+		if requests >= 1 {
+			f.t.gsRequestorCancelledListener(p, verifReq(zz.Ite(requests == 2, r1, r0)))
+			zz.Reach("requester cancelled first")
+		}
+	}
+	f.gs.Calls = nil
+
+	f.t.CleanupChannel(chid)
+
+	_, ok0 := f.t.requestIDToChannelID.load(r0)
+	_, ok1 := f.t.requestIDToChannelID.load(r1)
+	zz.Assert(!ok0 && !ok1, "after cleanup no graphsync request maps to the channel")
+	_, tracked := f.t.dtChannels[chid]
+	zz.Assert(!tracked, "the channel is no longer tracked")
+	zz.Assert(f.gs.count(gsUnregister) == zz.Ite(withStore, 1, 0), "the store is unregistered exactly once iff one was registered")
+	// late callbacks
+	f.ev.Calls = nil
+	rid := zz.Ite(zz.Bool("lateForOld"), r0, r1)
+	switch zz.Choice("late", 4) {
+	case 0:
+		f.t.gsBlockSentHook(p, &verifReqData{id: rid}, verifArbitraryBlock())
+	case 1:
+		f.t.gsOutgoingBlockHook(p, &verifReqData{id: rid}, verifArbitraryBlock(), &verifActions{})
+	case 2:
+		f.t.gsCompletedResponseListener(p, verifReq(rid), graphsync.RequestCompletedFull)
+	case 3:
+		f.t.gsNetworkSendErrorListener(p, verifReq(rid), zz.Error("late.err"))
+	}
+	zz.Assert(len(f.ev.Calls) == 0, "a late graphsync callback for a released request produces no event")
+	f.t.CleanupChannel(chid) // a second cleanup is harmless
+	zz.Assert(f.gs.count(gsUnregister) == zz.Ite(withStore, 1, 0), "a repeated cleanup releases nothing twice")
+	zz.Reach("released")
+}
+
 // ---- OpenChannel fixtures (property C10 clauses) -------------------------------
 
 // verifOpenFix plays graphsync's part of Request: each call allocates the next request ID,
